@@ -618,3 +618,34 @@ reg(P("C06", "format", "c06",
                                  "checked for crashes, the canary and consistency across positions"],
       sig_fn=_c06_sig, mutate=_c06_mutate, design_ref="DESIGN.md §6 C06",
       technique="TLC parses each hand-written stream with the HproseFormat recogniser, derives the required outcome from the FormatConv conversion matrix and judges the real decoder's outcome at every position"))
+
+
+def _c04_sig(reset, event):
+    r = reset
+    return {"mut": r.get("mut"), "entry": r.get("entry"), "dest": r.get("dest"), "outcome": r.get("outcome"),
+            "detail": _re.sub(r"[0-9]+", "#", r.get("detail", ""))[:70]}
+
+
+def _c04_mutate(rec):
+    if rec.get("ev") == "one" and rec.get("kind") == "fuzz":
+        rec["outcome"] = "panic"
+        return rec
+    return None
+
+
+reg(P("C04", "format", "c04",
+      mc={"quick": [("FormatSelf", "FormatSelf.cfg", 600)], "thorough": [("FormatSelf", "FormatSelf.cfg", 1500)]},
+      traces=[("", "FormatTraceC04", "FormatTraceC04.cfg")],
+      level="exploration",
+      rule="inputs = mutations of ~95 well-formed streams (value forms, encoder outputs incl. a cyclic graph, RPC requests "
+           "and responses): every truncation; single-byte substitutions, insertions and deletions over a 41-byte "
+           "alphabet of tags, delimiters and UTF-8 lead bytes (sampled positions in quick, all in thorough); every "
+           "decimal run that is a count, length or index replaced by 11 lies (-1, 0, +-1, 2^31-1, 2^32, 2^63-1, 10^11, "
+           "10^20); reference / class index, negative length, huge count, unhashable key, self reference and deep "
+           "nesting specials, also wrapped as call arguments and results; seeded random bytes; x destination types x "
+           "{Unmarshal, reader, service request, client response}; distinct non-trivial = (mutation class, destination, entry point)",
+      assumptions=_FMT_ASSUME + ["each input runs in a child process with an 8 GiB address-space limit, a 64 MiB stack limit and a 3 s "
+                                 "deadline; over-allocation = TotalAlloc delta above 256 x len + 1 MiB",
+                                 "'all byte strings' is sampled, not exhausted, beyond the one-edit neighbourhoods"],
+      sig_fn=_c04_sig, mutate=_c04_mutate, design_ref="DESIGN.md §6 C04",
+      technique="grammar-aware mutation of streams, direct observation of crash / hang / allocation in a child process; the HproseFormat recogniser (TLC) labels each stream malformed or not and demands an error for malformed ones"))
